@@ -56,8 +56,9 @@ func Before[S ~string, T any, V constraints.Signed](n *V, c *cache.Cache[S, T], 
 func Once[S ~string, T comparable, V constraints.Signed](c *cache.Cache[S, T], fn func() T) T {
 	memo, _ := c.Get("func")
 	if memo == nil {
-		c.Set("func", fn(), cache.DefaultExpiration)
-		return fn()
+		val := fn()
+		c.Set("func", val, cache.DefaultExpiration)
+		return val
 	}
 	memo, _ = c.Get("func")
 
